@@ -104,12 +104,22 @@ func runCase(c Case) (err error) {
 		discarded[i] = true
 	}
 	anyDiscard := len(discarded) > 0
+	waveDiscard := false // a Discard runs alongside a wave: how often a shard is recomputed is then not bounded by the property
 	// streams of the base observers before the waves
 	before := map[int]int{}
 	for i, b := range base {
 		before[i] = len(progen.EnvOf(b.spec.RunID).StreamsOf(b.spec.Root()))
 	}
 	for wi, wave := range c.Waves {
+		for _, job := range wave {
+			if job.K == "discard" {
+				// a Discard runs alongside this wave (and its effect lasts): scans of base results may
+				// fail from here on, runs must recompute what they need
+				anyDiscard = true
+				waveDiscard = true
+				discarded[job.R%len(base)] = true
+			}
+		}
 		errs := make([]error, len(wave))
 		var wg sync.WaitGroup
 		start := make(chan struct{})
@@ -120,6 +130,8 @@ func runCase(c Case) (err error) {
 				<-start
 				ok := runner.WithTimeout(jobTimeout, func() {
 					switch job.K {
+					case "discard":
+						base[job.R%len(base)].res.Discard(ctx)
 					case "scan":
 						b := base[job.R%len(base)]
 						schema := b.spec.Nodes[b.spec.Root()].Schema
@@ -166,6 +178,11 @@ func runCase(c Case) (err error) {
 						}
 						rows, e := runner.Scan(ctx, res, spec.Nodes[spec.Root()].Schema)
 						if e != nil {
+							if anyDiscard {
+								// the result may consist of (or its scan may re-read) task outputs that a Discard
+								// running alongside has dropped after the run completed: a direct scan may fail (C12)
+								return
+							}
 							errs[ji] = fmt.Errorf("wave %d: scanning the result of a concurrent run failed: %v", wi, e)
 							return
 						}
@@ -222,7 +239,7 @@ func runCase(c Case) (err error) {
 	// shared tasks are executed by one of the runs and awaited by the others: on the local executor
 	// (which never re-runs a task on its own) every shard of a base result used by the waves was
 	// computed at most once more after its Discard, whatever number of concurrent runs needed it
-	if c.Exec == "local" {
+	if c.Exec == "local" && !waveDiscard {
 		for i, b := range base {
 			streams := progen.EnvOf(b.spec.RunID).StreamsOf(b.spec.Root())
 			if b.spec.Nodes[b.spec.Root()].Op != "writerfunc" {
@@ -270,8 +287,12 @@ func genCase(t *rapid.T) Case {
 		var wave []Job
 		nj := rapid.IntRange(2, 6).Draw(t, "njobs")
 		for j := 0; j < nj; j++ {
-			if rapid.IntRange(0, 4).Draw(t, "scanjob") == 0 {
+			switch rapid.IntRange(0, 9).Draw(t, "scanjob") {
+			case 0, 1:
 				wave = append(wave, Job{K: "scan", R: rapid.IntRange(0, nb-1).Draw(t, "r")})
+				continue
+			case 2:
+				wave = append(wave, Job{K: "discard", R: rapid.IntRange(0, nb-1).Draw(t, "r")})
 				continue
 			}
 			job := Job{K: "run"}
@@ -313,7 +334,7 @@ const testName = "TestVerifC19Concurrent"
 
 func TestVerifC19Concurrent(t *testing.T) {
 	rec := vt.New("C19", "concurrent-runs",
-		"rapid: 1..2 base programs are run, optionally one base Result is discarded, then 1..2 waves of 2..6 activities are started at the same instant in one session (runs of generated programs over the base Results, and scans of base Results); generated functions yield the processor every few calls; GOMAXPROCS is 1, 2, 4 or 16 depending on the shard; local executor and bigmachine test system; oracle: every run returns the rows of its reference evaluation (what it returns when executed alone), concurrent scans return the base rows, nothing wedges (180 s), and on the local executor a base shard needed by several concurrent runs is recomputed at most once; in the thorough tier the same test also runs under the race detector and any report naming bigslice code is a violation; non-trivial = a wave has >= 2 runs sharing a base Result; distinct by case hash")
+		"rapid: 1..2 base programs are run, optionally one base Result is discarded, then 1..2 waves of 2..6 activities are started at the same instant in one session (runs of generated programs over the base Results, scans of base Results, and Discards of base Results); generated functions yield the processor every few calls; GOMAXPROCS is 1, 2, 4 or 16 depending on the shard; local executor and bigmachine test system; oracle: every run succeeds and returns the rows of its reference evaluation (what it returns when executed alone) - also a run whose arguments are being discarded alongside it -, concurrent scans return the base rows (a scan of outputs that a Discard has dropped may fail, never return other rows), nothing wedges (180 s), and on the local executor a base shard needed by several concurrent runs is recomputed at most once; in the thorough tier the same test also runs under the race detector and any report naming bigslice code is a violation; non-trivial = a wave has >= 2 runs sharing a base Result; distinct by case hash")
 	docs, only := vt.Replays(testName)
 	for _, d := range docs {
 		var c Case
